@@ -38,6 +38,12 @@ impl<VM: VMBinding> SFT for LargeObjectSpace<VM> {
         self.get_name()
     }
     fn is_live(&self, object: ObjectReference) -> bool {
+        // Nursery objects are allocated with the current mark state plus the nursery bit, and the
+        // mark state does not flip in a nursery GC.  During a nursery GC such an object is only
+        // live once it has been traced, which clears its nursery bit (see `test_and_mark`).
+        if self.in_nursery_gc && self.is_in_nursery(object) {
+            return false;
+        }
         self.test_mark_bit(object, self.mark_state)
     }
     #[cfg(feature = "object_pinning")]
@@ -325,6 +331,8 @@ impl<VM: VMBinding> LargeObjectSpace<VM> {
             self.sweep_large_pages(false);
             debug_assert!(self.treadmill.is_from_space_empty());
         }
+        // The collection is over: objects allocated from now on carry the nursery bit and are live.
+        self.in_nursery_gc = false;
     }
 
     // Allow nested-if for this function to make it clear that test_and_mark() is only executed
